@@ -33,7 +33,8 @@ MANIFEST = {
             'modifiers, size/etc, null/missing, syntax (dtml/ssi/epfs/'
             'entity) and access (name/expression), is rendered on the real '
             'code with a TaintedString carrying "<" at every position of '
-            'three carriers; the output must contain no "<" other than the '
+            'three carriers (each time right after the same text was '
+            'rendered untainted); the output must contain no "<" other than the '
             '<br /> that newline_to_br inserts, and never "&amp;lt;".',
     'note': 'Trusted: AccessControl.tainted.TaintedString as the taint mark; '
             'the author-supplied texts (etc, null, missing) contain no "<". '
@@ -60,7 +61,9 @@ SPECIAL = ['collection-length', 'comma-numeric', 'dollars-and-cents',
            'html-quote', 'multi-line', 'restructured-text', 'sql-quote',
            'structured-text', 'url-quote', 'url-quote-plus', 'url-unquote',
            'url-unquote-plus', 'whole-dollars']
-METHODS = ['upper', 'lower', 'strip', 'title']
+METHODS = ['upper', 'lower', 'strip', 'title', 'casefold', 'swapcase',
+           'capitalize', 'lstrip', 'rstrip', 'split', 'rsplit', 'splitlines',
+           'format', 'expandtabs', 'encode', 'isdigit', 'zfill']
 CARRIERS = ['qz1234567.5', "q_z %3C'", 'q\nz']
 
 # atoms: (dimension, alternative)
@@ -227,6 +230,9 @@ def run(case):
     n = nt = 0
     excs = 0
     for v in vals:
+        # the same text first passes as an ordinary (trusted) string: a
+        # result remembered for it must not be handed to the tainted value
+        render(cfg, v, tainted=False)
         out = render(cfg, v)
         n += 1
         if isinstance(out, BaseException):
